@@ -4,7 +4,7 @@ from sim import history
 PROP = 'C06'
 TECHNIQUE = 'deterministic simulation: seeded key graphs and histories checked against an access matrix derived by an independent reader'
 LEVEL = 'exploration'
-RULE = ('one case = a key graph grown by init + add-key (independent / shared / clone, varied KDF parameters) and a seeded '
+RULE = ('[users are processes per command or long-lived programs that keep one Repository object across commands] one case = a key graph grown by init + add-key (independent / shared / clone, varied KDF parameters) and a seeded '
         'history of snapshot / list / restore / delete / clean / delete-of-foreign-snapshot / unlock-with-mismatched-credentials '
         'by arbitrary users; oracle = access matrix from the independent reader (who holds which user key / family secrets): '
         'unlock iff password matches key; listings, restores show nothing unreadable; foreign delete refused with the store '
